@@ -16,6 +16,14 @@ PANIC_CALLEES = [
     (re.compile(r"^(alloc|std)::vec::Vec::<.*>::(remove|insert|swap_remove|drain|split_off)(::<.*>)?$"), "vec-op"),
     (re.compile(r"^(core|std)::cell::RefCell::<.*>::(borrow|borrow_mut)$"), "refcell"),
     (re.compile(r"unreachable_unchecked|core::intrinsics::abort|std::process::(abort|exit)"), "abort"),
+    # std functions with documented panics on some arguments
+    (re.compile(r"^(core|std)::f(32|64)::<impl f(32|64)>::clamp$|^(core|std)::cmp::Ord::clamp$|^<.* as (core|std)::cmp::Ord>::clamp$|^(core|std)::cmp::(min|max)_by_key$"), "clamp (panics if min > max or NaN)"),
+    (re.compile(r"^(core|std)::num::<impl [iu](8|16|32|64|128|size)>::(pow|abs|div_euclid|rem_euclid|ilog|ilog2|ilog10|isqrt|next_power_of_two|next_multiple_of|div_ceil|strict_\w+)$"), "integer op (panics on overflow / zero)"),
+    (re.compile(r"::(step_by|copy_within)(::<.*>)?$"), "std op with panicking precondition"),
+    (re.compile(r"^(std|core)::iter::Iterator::(step_by)$"), "std op with panicking precondition"),
+    (re.compile(r"^(std|alloc)::string::String::(remove|insert|insert_str|truncate|split_off|drain|replace_range)$"), "string op"),
+    (re.compile(r"^(std)::sync::(Mutex|RwLock).*::(lock|read|write)$"), "lock"),
+    (re.compile(r"^(std)::time::(Instant|SystemTime|Duration)::"), "time op"),
 ]
 
 _GEN = re.compile(r"::<[^<>]*(?:<[^<>]*(?:<[^<>]*>[^<>]*)*>[^<>]*)*>")
